@@ -2458,6 +2458,7 @@ func (s *Server) serveConnCounted(c net.Conn, countConcurrency bool) error {
 		ctx.Response.secureErrorLogMessage = s.SecureErrorLogMessage
 
 		if err == nil {
+			verifPoint("srv.firstByte")
 			if idleConnTime.Swap(0) == idleConnClosed {
 				// Shutdown has already closed this idle connection:
 				// don't start a request whose response can't be delivered.
